@@ -166,7 +166,7 @@ def check_pressure(case, rec):
 
 
 SUBS = [
-    Sub("density", lambda tier: gen.with_carrier(density_case(tier)), check_density, quick=4000, thorough=80000),
+    Sub("density", lambda tier: gen.with_carrier(density_case(tier)), check_density, quick=8000, thorough=80000),
     Sub("pressure", pressure_case, check_pressure, quick=2500, thorough=40000),
 ]
 REQUIRED_CLASSES = ["density:delta_near_threshold", "density:constant_depth_pair", "density:upcast",
